@@ -11,6 +11,8 @@ From TS Require Import Model.TopsortAlgo Model.Topsort Model.Lang.Common.
 From TS Require Import Model.Lang.TypeScript Model.Lang.Kotlin Model.Lang.Swift Model.Lang.Scala Model.Lang.Go Model.Lang.Python.
 From TS Require Import Spec.Lexers Spec.C15Spec Spec.C15Render.
 From TS Require Proofs.C15_Front Proofs.C15_Replace Proofs.C15 Proofs.C15_Render Proofs.C15_Kotlin Proofs.C15_Go Proofs.C15_Swift Proofs.C15_Python Proofs.C15_TypeScript.
+From TS Require Import Spec.C15RenderSwift.
+From TS Require Proofs.C15_SwiftItem.
 Import ListNotations.
 
 (* ---- front end (after the repair of parse_comment_attrs): a doc attribute with value v - which is what `/// v`,
@@ -407,3 +409,100 @@ Theorem C15_kt_item_line_free : forall (cfg : kt_config),
     c15_contained C15kt LCode (mark (c15_file_pieces C15kt parts)) = true.
 Proof. exact Proofs.C15_Front.C15_kt_item_line_free. Qed.
 Print Assumptions C15_kt_item_line_free.
+
+(* ---- Swift, one item, without the neutrality hypothesis.  [c15_sw_item_ok it] (Spec/C15RenderSwift.v, decidable) is
+   [c15_item_strict C15sw Swift it] - every identifier of the item (names, field keys, variant names and wire names, the
+   identifiers of its types) a NON-EMPTY string without `/`, double quote, backslash and control characters; generic
+   parameters, the content key and verbatim type overrides plain (no `/`, no double quote: the two characters the Swift
+   reference lexer reacts to in code) - plus what swift.rs prints bare in addition: the tag key, and the texts of the
+   item's #[typeshare(swift = "..")] decorators and #[typeshare(swiftGenericConstraints = "..")] constraints are plain.
+   (Non-empty and backslash-free because swift.rs prints the raw value of a CodingKeys case between double quotes verbatim.)
+   Configuration: the prefix contains no `/`, double quote, backslash, LF or CR ([c15_sw_raw]: it is printed bare in front of
+   every type name AND inside the string literal "Wrong type for <name>" of init(from:)); type_mappings targets, default
+   decorators and default generic constraints are plain.  Then the text sw_write_item prints, in any printer state -
+   helper structs of struct variants, struct heads with generic constraints and conformance lists, stored properties,
+   CodingKeys with raw values, init; String-backed enums with {:?}-quoted raw values; tagged enums with cases,
+   CodingKeys, ContainerCodingKeys, init(from:), encode(to:); typealias (write_const returns an error) - is code parts and
+   `/// ` fragments carrying exactly the item's doc strings in Swift's print order, each without its trailing white space,
+   and it is contained iff all of them are safe_sw (free of LF / CR, as every string the front end carries is).  No
+   assumption on the Unicode tables: to_camel_case only changes ASCII letters, trim / split only take sub-strings ---- *)
+Theorem C15_sw_item : forall (uc : unicode) (cfg : sw_config),
+  c15_sw_raw (sw_prefix cfg) = true ->
+  c15_mappings_plain C15sw (sw_type_mappings cfg) = true ->
+  forallb (c15_plain C15sw) (sw_default_decorators cfg) = true ->
+  forallb (c15_plain C15sw) (sw_default_generic_constraints cfg) = true ->
+  forall it st text st',
+  c15_sw_item_ok it = true ->
+  sw_write_item uc cfg it st = Ok (text, st') ->
+  exists parts,
+    text = text_of (c15_file_pieces C15sw parts) /\
+    docs_of (c15_file_pieces C15sw parts) = c15_sw_item_docs uc it /\
+    c15_contained C15sw LCode (mark (c15_file_pieces C15sw parts)) = forallb safe_sw (c15_sw_item_docs uc it).
+Proof. exact Proofs.C15_SwiftItem.C15_sw_item. Qed.
+Print Assumptions C15_sw_item.
+
+(* ---- Swift, one item whose doc strings are free of line breaks (every parsed item: C15_parsed_*_line_free), on the input
+   class of C15_sw_item: the printed text - helper structs under their generated comments included - is contained ---- *)
+Theorem C15_sw_item_line_free : forall (uc : unicode) (cfg : sw_config),
+  c15_sw_raw (sw_prefix cfg) = true ->
+  c15_mappings_plain C15sw (sw_type_mappings cfg) = true ->
+  forallb (c15_plain C15sw) (sw_default_decorators cfg) = true ->
+  forallb (c15_plain C15sw) (sw_default_generic_constraints cfg) = true ->
+  forall it st text st',
+  c15_sw_item_ok it = true ->
+  Forall (fun d => safe_line eol_lf_cr d = true) (c15_item_docs it) ->
+  sw_write_item uc cfg it st = Ok (text, st') ->
+  exists parts,
+    text = text_of (c15_file_pieces C15sw parts) /\
+    docs_of (c15_file_pieces C15sw parts) = c15_sw_item_docs uc it /\
+    c15_contained C15sw LCode (mark (c15_file_pieces C15sw parts)) = true.
+Proof. exact Proofs.C15_SwiftItem.C15_sw_item_line_free. Qed.
+Print Assumptions C15_sw_item_line_free.
+
+(* ---- Swift, WHOLE FILES (sw_generate: version header, `import Foundation`, the items in topological order with the
+   printer state - "() was translated" - threaded through them, the CodableVoid helper struct at the end when it was), no
+   neutrality hypothesis.  For every parsed program whose items are in the class of C15_sw_item, under the configuration
+   hypotheses of C15_sw_item, with plain codablevoid constraints (printed in the head of the helper struct) and a version
+   string without `*` and `/` (it is printed inside a block comment, which nests in Swift): the generated file is code parts
+   and `/// ` fragments whose doc strings are the doc strings of the items in output order (a permutation of the program's
+   items; per item Swift's print order, trailing white space removed), followed - when the helper struct is printed - by the
+   comment line typeshare writes itself; the file is contained iff all doc strings of the items are safe_sw.  Second
+   theorem: when the doc strings are free of line breaks (every parsed item: C15_parsed_*_line_free) it is contained. ---- *)
+Theorem C15_sw_file : forall (uc : unicode) (cfg : sw_config),
+  c15_sw_raw (sw_prefix cfg) = true ->
+  c15_mappings_plain C15sw (sw_type_mappings cfg) = true ->
+  forallb (c15_plain C15sw) (sw_default_decorators cfg) = true ->
+  forallb (c15_plain C15sw) (sw_default_generic_constraints cfg) = true ->
+  forallb (c15_plain C15sw) (sw_codablevoid_constraints cfg) = true ->
+  c15_sw_version_ok (sw_version cfg) = true ->
+  forall pd text,
+  forallb c15_sw_item_ok (items_of pd) = true ->
+  sw_generate uc cfg pd = Ok text ->
+  exists items trailer parts,
+    topsort (items_of pd) = Ok items /\ Permutation items (items_of pd) /\
+    (trailer = [] \/ trailer = c15_sw_trailer_docs) /\
+    text = text_of (c15_file_pieces C15sw parts) /\
+    docs_of (c15_file_pieces C15sw parts) = flat_map (c15_sw_item_docs uc) items ++ trailer /\
+    c15_contained C15sw LCode (mark (c15_file_pieces C15sw parts)) =
+    forallb safe_sw (flat_map (c15_sw_item_docs uc) items).
+Proof. exact Proofs.C15_SwiftItem.C15_sw_file. Qed.
+Print Assumptions C15_sw_file.
+Theorem C15_sw_file_line_free : forall (uc : unicode) (cfg : sw_config),
+  c15_sw_raw (sw_prefix cfg) = true ->
+  c15_mappings_plain C15sw (sw_type_mappings cfg) = true ->
+  forallb (c15_plain C15sw) (sw_default_decorators cfg) = true ->
+  forallb (c15_plain C15sw) (sw_default_generic_constraints cfg) = true ->
+  forallb (c15_plain C15sw) (sw_codablevoid_constraints cfg) = true ->
+  c15_sw_version_ok (sw_version cfg) = true ->
+  forall pd text,
+  forallb c15_sw_item_ok (items_of pd) = true ->
+  Forall (fun it => Forall (fun d => safe_line eol_lf_cr d = true) (c15_item_docs it)) (items_of pd) ->
+  sw_generate uc cfg pd = Ok text ->
+  exists items trailer parts,
+    topsort (items_of pd) = Ok items /\ Permutation items (items_of pd) /\
+    (trailer = [] \/ trailer = c15_sw_trailer_docs) /\
+    text = text_of (c15_file_pieces C15sw parts) /\
+    docs_of (c15_file_pieces C15sw parts) = flat_map (c15_sw_item_docs uc) items ++ trailer /\
+    c15_contained C15sw LCode (mark (c15_file_pieces C15sw parts)) = true.
+Proof. exact Proofs.C15_SwiftItem.C15_sw_file_line_free. Qed.
+Print Assumptions C15_sw_file_line_free.
